@@ -203,6 +203,38 @@ def random_parse_record(ctx):
             ctx.violation('C19.parse-record/dr', 'DirectoryRecordDate parse/record not identity on %s' % b.hex(), {'kind': 'drbytes', 'hex': b.hex()})
 
 
+def wellformed_parse_record(ctx):
+    """parse/record identity of the 17-byte class and of the UDF timestamp on EVERY well-formed value of each field (not only
+    the values the library itself writes: hundredths 00, its own time zone), and on the unspecified date"""
+    import struct
+    from pycdlib import dates, udf
+    rng = ctx.rng
+    cases = [b'0' * 16 + b'\x00']
+    for _ in range(400):
+        hund = rng.choice([0, 1, 7, 9, 10, 50, 90, 99, rng.randrange(100)])
+        s = '%04d%02d%02d%02d%02d%02d%02d' % (rng.choice([1, 999, 1000, 1970, 2024, 2099, 9999, rng.randint(1, 9999)]), rng.randint(1, 12),
+                                          rng.randint(1, 28), rng.randint(0, 23), rng.randint(0, 59), rng.randint(0, 59), hund)
+        cases.append(s.encode() + struct.pack('=b', rng.choice([-48, -1, 0, 1, 22, 52, rng.randint(-48, 52)])))
+    for b in cases:
+        d = dates.VolumeDescriptorDate()
+        d.parse(b)
+        ctx.count(key=b, nontrivial=True, kind='vd-parse-record')
+        if d.record() != b:
+            ctx.violation('C19.parse-record/vd', 'VolumeDescriptorDate parse/record not identity: %r -> %r' % (b, d.record()), {'kind': 'vdbytes', 'hex': b.hex()})
+    for _ in range(300):
+        tz = rng.choice([0, 22, -22, 1 << 11 | 0, rng.randint(-1440, 1440)]) & 0xfff
+        b = struct.pack('<HhBBBBBBBB', (1 << 12) | tz, rng.randint(1, 9999), rng.randint(1, 12), rng.randint(1, 28), rng.randint(0, 23),
+                        rng.randint(0, 59), rng.randint(0, 59), rng.randint(0, 99), rng.randint(0, 99), rng.randint(0, 99))
+        u = udf.UDFTimestamp()
+        try:
+            u.parse(b)
+        except Exception:
+            continue
+        ctx.count(key=b, nontrivial=True, kind='udf-parse-record')
+        if u.record() != b:
+            ctx.violation('C19.parse-record/udf', 'UDFTimestamp parse/record not identity: %s -> %s' % (b.hex(), u.record().hex()), {'kind': 'udfbytes', 'hex': b.hex()})
+
+
 def run(ctx):
     old = os.environ.get('TZ')
     try:
@@ -214,6 +246,7 @@ def run(ctx):
             set_tz(tz)
             run_zone(ctx, tz, instants(ctx, tz))
         random_parse_record(ctx)
+        wellformed_parse_record(ctx)
     finally:
         if old is None:
             os.environ.pop('TZ', None)
@@ -228,6 +261,8 @@ def replay(ctx, obj):
     try:
         if r.get('kind') == 'tz':
             run_zone(ctx, r['tz'], [r['t']])
+        if r.get('kind') in ('vdbytes', 'udfbytes'):
+            wellformed_parse_record(ctx)
     finally:
         if old is None:
             os.environ.pop('TZ', None)
